@@ -503,6 +503,12 @@ func genFacts() {
 		strings.Contains(dht, "for _, l := range roots { historic[l] = true }") &&
 		strings.Contains(dht, "for _, l := range current { if !historic[l] { continue }"))
 
+	// ---- passphrase -> key (C18): deriveKey and V1NodeEncryptor are exactly the known pure functions
+	cry := load("kv/crypto.go")
+	f["deriveKeyAsExpected"] = leanBool(cry.text(cry.fn("deriveKey").Body) == "{ combined := make([]byte, 0, len(context)+len(master)) combined = append(combined, context...) combined = append(combined, master...) salt, _ := nonce(combined, deriveKeySaltLen) return argon2.IDKey([]byte(base64.StdEncoding.EncodeToString(combined)), salt, 1, 8, 1, keyLen) }" &&
+		cry.text(cry.fn("V1NodeEncryptor").Body) == "{ var key [32]byte copy(key[:], deriveKey(passphrase, nil)) return &jencryptor{key} }" &&
+		cry.text(cry.fn("jencryptor.Encrypt").Body) == "{ return encrypt(&j.key, value) }" &&
+		cry.text(cry.fn("jencryptor.Decrypt").Body) == "{ return decrypt(&j.key, value) }")
 	// ---- scan (C06)
 	fil := vc.fn("Cursor.Filter")
 	opsOf := func(frag string) []string {
@@ -594,6 +600,9 @@ func genFacts() {
 	}
 	f["argsBeforeOpen"] = leanBool(loopEnd != 0 && openPos > loopEnd)
 	f["registerAfterOpen"] = leanBool(openPos != 0 && lockPos > openPos && strings.Contains(vc.text(nw.Body), "tables[table.Name] = table"))
+	// the duplicate-name check and the registration are one critical section at the end of New
+	f["registerAtomic"] = leanBool(strings.HasSuffix(vc.text(nw.Body), "tableLock.Lock() defer tableLock.Unlock() if _, ok := tables[table.Name]; ok { return nil, fmt.Errorf(\"table already exists: %s\", table.Name) } tables[table.Name] = table return table, nil }") &&
+		strings.Count(vc.text(nw.Body), "tables[") == 2 && !strings.Contains(vc.text(nw.Body), "GetTable("))
 	cn := vt.fn("Module.Connect")
 	decl := vt.ifWithCond(cn, "err != nil")
 	declOK := false
